@@ -30,6 +30,8 @@ def gen_case(rng, cid, nmax=3, rotations_only=False, ev="FaceOp"):
         d1 = [["d9", nf], ["d1", N], ["d4", N]] + [list(e) for e in g["extra"]]
         rng.shuffle(d1)
         data = gen.rand_data(rng, d1, -9, 9)
+        if rng.random() < 0.25:
+            gen.sprinkle_nan(rng, data, "d9")       # land cells next to a junction, blank tiles
         axis = rng.choice(axnames)
         return {"id": cid, "ev": ev, "op": rng.choice(OPS), "grid": g,
                 "decomp": {"K": list(K), "per": list(per), "orient": [list(o) for o in orient]},
